@@ -483,6 +483,48 @@ pub fn join_tight(tokens: &[Tok]) -> String {
     out
 }
 
+/// The text `base` (spaces only between tokens) with each single space outside string literals replaced by a
+/// whitespace run chosen by `breaks` (cyclic): 0 = space, 1 = LF, 2 = tab, 3 = CRLF, 4 = LF + indentation, 5 = two spaces.
+pub fn vary_whitespace(base: &str, breaks: &[u8]) -> String {
+    if breaks.is_empty() {
+        return base.to_string();
+    }
+    let mut out = String::new();
+    let mut in_str = false;
+    let mut escaped = false;
+    let mut k = 0;
+    for c in base.chars() {
+        if in_str {
+            out.push(c);
+            if escaped {
+                escaped = false;
+            } else if c == '\\' {
+                escaped = true;
+            } else if c == '\'' {
+                in_str = false;
+            }
+            continue;
+        }
+        if c == '\'' {
+            in_str = true;
+            out.push(c);
+        } else if c == ' ' {
+            out.push_str(match breaks[k % breaks.len()] {
+                1 => "\n",
+                2 => "\t",
+                3 => "\r\n",
+                4 => "\n    ",
+                5 => "  ",
+                _ => " ",
+            });
+            k += 1;
+        } else {
+            out.push(c);
+        }
+    }
+    out
+}
+
 pub fn text_min(e: &E) -> String {
     join_canonical(&Renderer::minimal().expr(e))
 }
